@@ -168,8 +168,13 @@ def main():
             name = 'R%02d-revert-%s.patch' % (n, h)
             open(os.path.join(OUT, name), 'w').write(d)
             props = sorted(set(k['property'] for k in known if k.get('commit') == h))
-            index.append({'id': 'R%02d' % n, 'patch': name, 'property': None, 'properties': props,
-                          'what': 'reverse of ' + line, 'kind': 'revert-of-fix', 'existing_tests_pass': True})
+            entry = {'id': 'R%02d' % n, 'patch': name, 'property': None, 'properties': props,
+                     'what': 'reverse of ' + line, 'kind': 'revert-of-fix', 'existing_tests_pass': True}
+            if 'raised AttributeError' in subj:
+                entry['masked'] = ('since fix 7111e68 stores sub-64-bit words as int64, astype(int) no longer meets a '
+                                   'Python-int code inside the core domain (n_word<=52): reverting this fix alone '
+                                   'changes nothing there')
+            index.append(entry)
             print('R%02d %s' % (n, line))
     finally:
         shutil.rmtree(base, ignore_errors=True)
